@@ -47,7 +47,9 @@ listen_dep  yes      Only passive communication mode
 import nfc.clf
 from . import device
 
+import os
 import time
+import errno
 import struct
 import operator
 from functools import reduce
@@ -921,19 +923,19 @@ class Device(device.Device):
             timeout_msec = max(min(int(timeout * 1000), 0xFFFF), 1)
         else:
             timeout_msec = 0
-        self.chipset.in_set_rf(target.brty_send, target.brty_recv)
-        self.chipset.in_set_protocol(self.chipset.in_set_protocol_defaults)
-        in_set_protocol_settings = {}
-        if target.brty_send.endswith('A'):
-            in_set_protocol_settings['add_parity'] = 1
-            in_set_protocol_settings['check_parity'] = 1
-        if target.brty_send.endswith('B'):
-            in_set_protocol_settings['initial_guard_time'] = 20
-            in_set_protocol_settings['add_sof'] = 1
-            in_set_protocol_settings['check_sof'] = 1
-            in_set_protocol_settings['add_eof'] = 1
-            in_set_protocol_settings['check_eof'] = 1
         try:
+            self.chipset.in_set_rf(target.brty_send, target.brty_recv)
+            self.chipset.in_set_protocol(self.chipset.in_set_protocol_defaults)
+            in_set_protocol_settings = {}
+            if target.brty_send.endswith('A'):
+                in_set_protocol_settings['add_parity'] = 1
+                in_set_protocol_settings['check_parity'] = 1
+            if target.brty_send.endswith('B'):
+                in_set_protocol_settings['initial_guard_time'] = 20
+                in_set_protocol_settings['add_sof'] = 1
+                in_set_protocol_settings['check_sof'] = 1
+                in_set_protocol_settings['add_eof'] = 1
+                in_set_protocol_settings['check_eof'] = 1
             if ((target.brty == '106A' and target.sel_res and
                  target.sel_res[0] & 0x60 == 0x00)):
                 # Driver must check TT2 CRC to get ACK/NAK
@@ -948,6 +950,9 @@ class Device(device.Device):
             if error == "RECEIVE_TIMEOUT_ERROR":
                 raise nfc.clf.TimeoutError
             raise nfc.clf.TransmissionError
+        except StatusError as error:
+            log.debug(error)
+            raise nfc.clf.TransmissionError(str(error))
 
     def _tt2_send_cmd_recv_rsp(self, data, timeout_msec):
         # The Type2Tag implementation needs to receive the Mifare
@@ -955,6 +960,8 @@ class Device(device.Device):
         # (indistinguishable from a real crc error). We thus had to
         # switch off the crc check and do it here.
         data = self.chipset.in_comm_rf(data, timeout_msec)
+        if data is None:
+            raise IOError(errno.EIO, os.strerror(errno.EIO))
         if len(data) > 2 and self.check_crc_a(data) is False:
             raise nfc.clf.TransmissionError("crc_a check error")
         return data[:-2] if len(data) > 2 else data
